@@ -148,6 +148,17 @@ static void draw_check (pixman_glyph_cache_t *c, vf_rng *r)
     for (int i = 0; i < n; i++) kk += snprintf (desc + kk, sizeof desc - kk, " g%d{%s %dx%d origin(%d,%d) at (%d,%d)}", i, rp_name (ent[gk[i]].fmt), ent[gk[i]].w, ent[gk[i]].h, ent[gk[i]].ox, ent[gk[i]].oy, gl[i].x, gl[i].y);
     char d2[500]; rq_describe (&q1, d2, sizeof d2);
     vf_case_desc ("%s | %s", desc, d2); vf_inflight ("%s", desc);
+    /* the two query helpers clients size their mask with: the extents are the union of the glyph boxes placed at (x - origin_x, y - origin_y) */
+    { pixman_box32_t ex; pixman_glyph_get_extents (c, n, gl, &ex); int x1 = INT32_MAX, y1 = INT32_MAX, x2 = INT32_MIN, y2 = INT32_MIN;
+      for (int i = 0; i < n; i++) { entry_t *e = &ent[gk[i]]; int gx = gl[i].x - e->ox, gy = gl[i].y - e->oy; if (gx < x1) x1 = gx; if (gy < y1) y1 = gy; if (gx + e->w > x2) x2 = gx + e->w; if (gy + e->h > y2) y2 = gy + e->h; }
+      vf_count ("evaluations", 1); vf_count ("extents_queries", 1);
+      if (ex.x1 != x1 || ex.y1 != y1 || ex.x2 != x2 || ex.y2 != y2) vf_violation ("C17:glyph-extents", "pixman_glyph_get_extents gives [%d,%d,%d,%d], the glyph boxes at (x - origin_x, y - origin_y) span [%d,%d,%d,%d]", ex.x1, ex.y1, ex.x2, ex.y2, x1, y1, x2, y2);
+      /* a mask of the format the library proposes is deep enough to hold every glyph of the run: drawing through it equals drawing through a8r8g8b8 when a glyph has colour, through a8 otherwise */
+      pixman_format_code_t pf = pixman_glyph_get_mask_format (c, n, gl); int any_rgb = 0, deepest = 0; for (int i = 0; i < n; i++) { if (PIXMAN_FORMAT_RGB (ent[gk[i]].fmt)) any_rgb = 1; if ((int)PIXMAN_FORMAT_A (ent[gk[i]].fmt) > deepest) deepest = (int)PIXMAN_FORMAT_A (ent[gk[i]].fmt); }
+      vf_label ("proposed_mask_formats", "%s", rp_name (pf));
+      if (any_rgb ? !(PIXMAN_FORMAT_RGB (pf) && PIXMAN_FORMAT_A (pf) >= 8) : (PIXMAN_FORMAT_RGB (pf) || (int)PIXMAN_FORMAT_A (pf) < (deepest > 8 ? 8 : deepest)))
+          vf_violation ("C17:glyph-mask-format", "pixman_glyph_get_mask_format proposes %s for a run whose glyphs %s and have up to %d alpha bits", rp_name (pf), any_rgb ? "carry colour" : "are alpha-only", deepest);
+    }
     seen_lookup = seen_wide = 0; pixman_verif_trace_composite = trace_fp; pixman_verif_trace_iter = trace_it;
     if (with_mask) pixman_composite_glyphs (op, q1.src.img, q1.dst.img, mf, sx, sy, mx, my, mx + dx, my + dy, mw, mh, c, n, gl);
     else pixman_composite_glyphs_no_mask (op, q1.src.img, q1.dst.img, sx, sy, dx, dy, c, n, gl);
